@@ -8,7 +8,8 @@ from core import Family, q, unq, close, run_model, run_impl, cmp_tree
 
 FEATURES = [set(), {"filter"}, {"period_filter"}, {"stochastic"}, {"constraint"},
             {"two_cont_choices"}, {"mixed_discrete_choices", "filter"}, {"filter", "stochastic"},
-            {"constraint", "two_cont_choices"}, {"two_stochastic"}, {"period_filter", "stochastic"}, set()]
+            {"constraint", "two_cont_choices"}, {"two_stochastic"}, {"period_filter", "stochastic"},
+            {"period_filter", "two_filters"}, set()]
 
 TRUSTED = [
     "Spec/Lang.v, Spec/Bellman.v, Spec/Layout.v are the specification (hand-written, independent of lcm's array code); the runner evaluates them on the generated model",
